@@ -76,6 +76,46 @@ def r1_r2_selection(ctx: Ctx, d) -> None:
             if ("self.match_mode == 'first_match'", True) in g:
                 continue
             sels.append((s, v, base))
+    # winner taken by position from a list that was ranked earlier: ranked = sorted(pool, key=…) ; … ; winner = some_list[-1]
+    def ranked_source(name: str, at, depth: int = 0):
+        if depth > 3:
+            return None
+        for dn in cfg.defs_reaching(at, name):
+            if dn == 'param':
+                continue
+            ds = cfg.stmt[dn]
+            val = getattr(ds, 'value', None)
+            if val is None:
+                continue
+            for c in ast.walk(val):
+                if isinstance(c, ast.Call) and call_name(c) == 'sorted':
+                    return c
+            for nm in [x.id for x in ast.walk(val) if isinstance(x, ast.Name) and x.id != name]:
+                r = ranked_source(nm, ds, depth + 1)
+                if r is not None:
+                    return r
+        return None
+    positional = []
+    for s in cfg.stmts():
+        if d.in_loop(s) or not isinstance(s, ast.Assign):
+            continue
+        v = s.value
+        if isinstance(v, ast.Subscript) and isinstance(v.value, ast.Name) and isinstance(v.slice, (ast.Constant, ast.UnaryOp)):
+            g = cfg.guard_literals(s)
+            if ("self.match_mode == 'first_match'", True) in g:
+                continue
+            srt = ranked_source(v.value.id, s)
+            if srt is not None:
+                positional.append((s, v, srt))
+    for s, v, srt in positional:
+        idx = src(v.slice).replace(' ', '')
+        rev = [kw.value for kw in srt.keywords if kw.arg == 'reverse']
+        desc = bool(rev) and isinstance(rev[0], ast.Constant) and rev[0].value is True
+        ok = desc and idx == '0'
+        why = (f'{src(s)[:50]!r} takes element [{idx}] of a list ranked by {"descending" if desc else "ascending"} sorted(): '
+               + ('the stable sort keeps file order among equal keys, so the last element is the LATER of two equally specific rules (ties must go to the earlier rule)' if idx == '-1' and not desc
+                  else 'this is not the most specific rule with ties going to the earlier one'))
+        ctx.check(ok, 'C09.R1', d.fi, f'select:{src(s.targets[0])}:{src(v)[:24]}', f'{src(v)[:40]} of a descending stable sort', why, s)
     manual = [s for s in cfg.stmts() if isinstance(s, ast.For) and not d.in_loop(s) and s is not d.loop
               and any(isinstance(n, ast.Compare) and any(isinstance(o, (ast.Gt, ast.GtE, ast.Lt, ast.LtE)) for o in n.ops) for n in ast.walk(s))
               and any(isinstance(n, ast.Name) and n.id == pool for n in ast.walk(s.iter))]
@@ -83,7 +123,7 @@ def r1_r2_selection(ctx: Ctx, d) -> None:
         ge = [n for n in ast.walk(lp) if isinstance(n, ast.Compare) and any(isinstance(o, ast.GtE) for o in n.ops)]
         ctx.check(not ge, 'C09.R1', d.fi, 'manual-loop', 'manual selection loop with strict > (earlier rule keeps ties)',
                   f'manual selection loop compares with >=: on equal specificity the later rule wins', lp)
-    if len(sels) + len(manual) < 3:
+    if len(sels) + len(manual) + len(positional) < 3:
         ctx.unknown('C09.R1', d.fi, f'{len(sels)} winner selections found in the most_specific branch (merchant, category, subcategory expected)')
     for s, v, base in sels:
         fn = call_name(base)
